@@ -716,7 +716,7 @@ func diff(in *ap.AP, exp *Exp, got *ap.AP) (clause, detail string) {
 				continue
 			}
 			if len(inBy[k].Locs) == 0 {
-				return "frameless-sample-dropped", "sample " + k + " (no frames, " + e.LabelKey() + ") is missing from the result"
+				return "sample-dropped/frameless", "sample " + k + " (no frames, " + e.LabelKey() + ") is missing from the result"
 			}
 			return "sample-dropped", "sample " + k + " " + render(inBy[k].Locs) + " is missing; expected it with frames " + render(e.Locs)
 		}
